@@ -1,10 +1,50 @@
 import Vegeta.Go.Proto
-/-! Driver operations of property C10 (ops are named `c10.<name>`). -/
-namespace Vegeta.Driver.C10
-open Vegeta.Go Vegeta.Go.Proto
+import Vegeta.Model.Metrics
+/-! Driver operations of property C10 (ops are named `c10.<name>`).
 
-def handle (_op : String) (args : List String) : Option String :=
-  match _op with
+`c10.run n op₁ … opₙ` with `op = a <code> <ts> <latency> <bytesOut> <bytesIn> <errorhex>` (Add)
+or `c` (Close); the model runs the calls on a fresh `Metrics`, closes once more and prints
+every exported field (floats as bit patterns).
+`c10.seconds d` prints the bits of `Duration(d).Seconds()`. -/
+namespace Vegeta.Driver.C10
+open Vegeta.Go Vegeta.Go.Proto Vegeta.Model.Metrics
+
+def opP : P Op := do
+  let t ← tok
+  if t == "c" then pure Op.close
+  else if t == "a" then do
+    let code ← nat
+    let ts ← int
+    let lat ← int
+    let bo ← nat
+    let bi ← nat
+    let e ← bytes
+    pure (Op.add { code := code, timestamp := ts, latency := lat, bytesOut := bo, bytesIn := bi, error := e })
+  else failure
+
+def showTime : Option Int → String
+  | none => "none"
+  | some t => toString t
+
+def showReport (r : Report) : String :=
+  "ok req=" ++ toString r.requests ++
+  " codes=" ++ toString r.statusCodes.length ++ r.statusCodes.foldl (fun s (c, n) => s ++ " " ++ toString c ++ ":" ++ toString n) "" ++
+  " bin=" ++ toString r.bytesInTotal ++ "," ++ toString r.bytesInMean.bits ++
+  " bout=" ++ toString r.bytesOutTotal ++ "," ++ toString r.bytesOutMean.bits ++
+  " lat=" ++ toString r.latTotal ++ "," ++ toString r.latMean ++ "," ++ toString r.latMax ++ "," ++ toString r.latMin ++
+  " t=" ++ showTime r.earliest ++ "," ++ showTime r.latest ++ "," ++ showTime r.end_ ++
+  " dur=" ++ toString r.duration ++ " wait=" ++ toString r.wait ++
+  " rate=" ++ toString r.rate.bits ++ " thr=" ++ toString r.throughput.bits ++ " succ=" ++ toString r.successRatio.bits ++
+  " errs=" ++ showBytesList r.errors
+
+def handle (op : String) (args : List String) : Option String :=
+  match op with
+  | "c10.run" => do
+    let (ops, _) ← (listOf opP).run args
+    pure (showReport (report (close (run Metrics.init ops))))
+  | "c10.seconds" => do
+    let (d, _) ← (int).run args
+    pure ("ok " ++ toString (seconds d).bits)
   | _ => none
 
 end Vegeta.Driver.C10
